@@ -62,7 +62,7 @@ Section WithLease.
     let '(i, s1) := seq_next L st in
     nxt st <= i /\ nxt s1 = i + 1 /\ nxt s1 <= leased s1 /\ leased s1 = dseq s1
     /\ disk s1 = disk st /\ pend s1 = pend st /\ mref s1 = mref st /\ gen s1 = gen st /\ ctxs s1 = ctxs st
-    /\ hist s1 = hist st.
+    /\ hist s1 = hist st /\ wgens s1 = wgens st.
   Proof.
     intros H1 H2. unfold seq_next.
     destruct (leased st <=? nxt st) eqn:E; cbn.
@@ -74,7 +74,7 @@ Section WithLease.
   Lemma idinv_known st u i g :
     idinv st -> In (u, i) (view st) ->
     idinv {| disk := disk st; pend := pend st; mref := MOpen; gen := g; ctxs := ctxs st;
-             nxt := nxt st; leased := leased st; dseq := dseq st; hist := hist st ++ [(u, i)] |}.
+             nxt := nxt st; leased := leased st; dseq := dseq st; wgens := wgens st; hist := hist st ++ [(u, i)] |}.
   Proof.
     intros [K I C Lt J S P] Hin. constructor; unfold view in *; cbn.
     - exact K.
@@ -94,7 +94,7 @@ Section WithLease.
   Lemma idinv_new st u i g n l d :
     idinv st -> slookup u (view st) = None -> nxt st <= i -> n = i + 1 -> n <= l -> l = d ->
     idinv {| disk := disk st; pend := pend st ++ [(u, i)]; mref := MOpen; gen := g; ctxs := ctxs st;
-             nxt := n; leased := l; dseq := d; hist := hist st ++ [(u, i)] |}.
+             nxt := n; leased := l; dseq := d; wgens := wgens st; hist := hist st ++ [(u, i)] |}.
   Proof.
     intros [K I C Lt J S P] Hnone Hi Hn Hl Hd.
     assert (Hfresh : ~ In i (map snd (view st))).
@@ -136,11 +136,11 @@ Section WithLease.
         match slookup uu (view st) with
         | Some i =>
           ({| disk := disk st; pend := pend st; mref := MOpen; gen := g; ctxs := ctxs st;
-              nxt := nxt st; leased := leased st; dseq := dseq st; hist := hist st ++ [(uu, i)] |}, RId i false)
+              nxt := nxt st; leased := leased st; dseq := dseq st; wgens := wgens st; hist := hist st ++ [(uu, i)] |}, RId i false)
         | None =>
           let '(i, s1) := seq_next L st in
           ({| disk := disk s1; pend := pend s1 ++ [(uu, i)]; mref := MOpen; gen := g; ctxs := ctxs s1;
-              nxt := nxt s1; leased := leased s1; dseq := dseq s1; hist := hist s1 ++ [(uu, i)] |}, RId i true)
+              nxt := nxt s1; leased := leased s1; dseq := dseq s1; wgens := wgens s1; hist := hist s1 ++ [(uu, i)] |}, RId i true)
         end in
       idinv st' /\ id_ext st st' /\ disk st' = disk st /\ incl (view st) (view st') /\ ctxs st' = ctxs st
       /\ match o with
@@ -156,8 +156,8 @@ Section WithLease.
         cbn. repeat split; [exact Hin | apply in_or_app; right; now left | exact Hnd | discriminate].
       - pose proof (iv_seq _ Hinv) as [S1 S2].
         pose proof (seq_next_spec st S1 S2) as Hs. destruct (seq_next L st) as [i s1].
-        destruct Hs as (Hi & Hn & Hl & Hd & E1 & E2 & E3 & E4 & E5 & E6).
-        rewrite E1, E2, E5, E6.
+        destruct Hs as (Hi & Hn & Hl & Hd & E1 & E2 & E3 & E4 & E5 & E6 & E7).
+        rewrite E1, E2, E5, E6, E7.
         split; [now apply idinv_new|]. split; [split; cbn; [apply incl_refl | apply incl_appl, incl_refl]|].
         split; [reflexivity|]. unfold view; cbn.
         split; [rewrite app_assoc; apply incl_appl, incl_refl|]. split; [reflexivity|].
@@ -201,12 +201,22 @@ Section WithLease.
     /\ (o = RErrDiscarded -> st' = st).
   Proof.
     intros Hinv. destruct m; cbn [commit_ctx].
-    - destruct (nth_error (ctxs st) k) as [[g|]|].
+    - assert (Hforget : forall cs,
+        let st' := {| disk := disk st; pend := pend st; mref := mref st; gen := gen st; ctxs := cs;
+                      nxt := nxt st; leased := leased st; dseq := dseq st; wgens := wgens st; hist := hist st |} in
+        idinv st' /\ id_ext st st' /\ view st' = view st /\ hist st' = hist st
+        /\ (CtxCopyPtr = CtxShared -> mref st <> MDead -> ROk = ROk /\ mref st' = MNone /\ pend st' = [] /\ disk st' = view st)
+        /\ (ROk = ROk \/ ROk = RErrDiscarded) /\ (ROk = RErrDiscarded -> st' = st)).
+      { intros cs st'. split; [destruct Hinv; constructor; auto|]. split; [split; cbn; apply incl_refl|].
+        split; [reflexivity|]. split; [reflexivity|]. split; [discriminate|]. split; [now left | discriminate]. }
+      destruct (nth_error (ctxs st) k) as [[g|]|].
       2,3: (split; [exact Hinv|]; split; [apply id_ext_refl|]; split; [reflexivity|]; split; [reflexivity|];
             split; [discriminate|]; split; [now left | discriminate]).
       destruct (is_open (mref st) && Nat.eqb g (gen st)) eqn:E.
-      2: (split; [exact Hinv|]; split; [apply id_ext_refl|]; split; [reflexivity|]; split; [reflexivity|];
-            split; [discriminate|]; split; [now right | reflexivity]).
+      2: { destruct (existsb (Nat.eqb g) (wgens st)); [|apply Hforget].
+           split; [exact Hinv|]; split; [apply id_ext_refl|]; split; [reflexivity|]; split; [reflexivity|];
+             split; [discriminate|]; split; [now right | reflexivity]. }
+      destruct (pend st) as [|pp pq] eqn:Ep; [apply Hforget|].
       assert (Hv : view (do_commit st MDead (replace_nth k None (ctxs st))) = view st) by apply view_commit.
       split; [|split; [|split; [|split; [|split; [|split]]]]].
       + destruct Hinv as [K I C Lt J S P]. constructor; rewrite ?Hv; cbn; auto.
@@ -400,12 +410,13 @@ Section Theorems.
 
   (** ** the pinned contextual store: exact condition under which it is dead *)
   Definition ctx_dead (k g : nat) (st : idstate) : Prop :=
-    nth_error (ctxs st) k = Some (Some g) /\ (g < gen st \/ (g = gen st /\ mref st <> MOpen))%nat.
+    nth_error (ctxs st) k = Some (Some g) /\ existsb (Nat.eqb g) (wgens st) = true
+    /\ (g < gen st \/ (g = gen st /\ mref st <> MOpen))%nat.
 
   Lemma ctx_dead_fails k g st : ctx_dead k g st -> commit_ctx CtxCopyPtr k st = (st, RErrDiscarded).
   Proof.
-    intros [Hn Hg]. cbn [commit_ctx]. rewrite Hn.
-    destruct (is_open (mref st) && Nat.eqb g (gen st)) eqn:E; [|reflexivity].
+    intros (Hn & Hw & Hg). cbn [commit_ctx]. rewrite Hn.
+    destruct (is_open (mref st) && Nat.eqb g (gen st)) eqn:E; [|now rewrite Hw].
     apply andb_true_iff in E. destruct E as [E1 E2]. apply Nat.eqb_eq in E2.
     destruct (mref st); try discriminate. destruct Hg as [Hg|[_ Hg]]; [lia | congruence].
   Qed.
@@ -418,26 +429,39 @@ Section Theorems.
   Lemma ctx_dead_step k g op st :
     idinv st -> ctx_dead k g st -> (forall c, op <> IRestart c) -> ctx_dead k g (fst (id_step CtxCopyPtr L op st)).
   Proof.
-    intros Hinv [Hn Hg] Hop. destruct op; cbn [id_step].
-    - unfold assert_id. destruct u as [|c u]; [split; assumption|].
+    intros Hinv (Hn & Hw & Hg) Hop. destruct op; cbn [id_step].
+    - unfold assert_id. destruct u as [|c u]; [repeat split; assumption|].
       destruct (mref st) eqn:Em.
-      + destruct (slookup (c :: u) (view st)); [|unfold seq_next; destruct (leased st <=? nxt st)]; unfold ctx_dead; cbn; (split; [assumption|]; left; destruct Hg as [Hg|[Hg _]]; lia).
       + destruct (slookup (c :: u) (view st)); [|unfold seq_next; destruct (leased st <=? nxt st)]; unfold ctx_dead; cbn;
-          (split; [assumption|]; destruct Hg as [Hg|[_ Hg]]; [left; exact Hg | congruence]).
-      + split; [assumption|]. cbn [fst]. rewrite Em. exact Hg.
+          (split; [assumption|]; split; [assumption|]; left; destruct Hg as [Hg|[Hg _]]; lia).
+      + destruct (slookup (c :: u) (view st)); [|unfold seq_next; destruct (leased st <=? nxt st)]; unfold ctx_dead; cbn;
+          (split; [assumption|]; split; [assumption|]; destruct Hg as [Hg|[_ Hg]]; [left; exact Hg | congruence]).
+      + split; [assumption|]. split; [assumption|]. cbn [fst]. rewrite Em. exact Hg.
     - unfold commit_main. destruct (mref st) eqn:Em; unfold ctx_dead; cbn.
-      + rewrite Em. split; assumption.
-      + split; [assumption|]. destruct Hg as [Hg|[_ Hg]]; [left; exact Hg | congruence].
-      + rewrite Em. split; assumption.
-    - unfold ctx_dead; cbn. split; [|exact Hg]. rewrite nth_error_app1; [assumption|]. apply nth_error_Some. congruence.
-    - cbn [commit_ctx]. destruct (nth_error (ctxs st) k0) as [[g0|]|] eqn:En; cbn [fst]; try (split; assumption).
-      destruct (is_open (mref st) && Nat.eqb g0 (gen st)) eqn:E; cbn [fst]; [|split; assumption]. unfold ctx_dead; cbn.
-      apply andb_true_iff in E. destruct E as [E1 E2]. apply Nat.eqb_eq in E2. subst g0.
-      destruct (mref st) eqn:Em; try discriminate.
-      destruct (Nat.eq_dec k k0) as [->|Hne].
-      + rewrite Hn in En. injection En as ->. destruct Hg as [Hg|[_ Hg]]; [lia | congruence].
-      + split; [rewrite nth_error_replace_other; assumption|].
-        destruct Hg as [Hg|[_ Hg]]; [left; exact Hg | congruence].
+      + rewrite Em. repeat split; assumption.
+      + split; [assumption|]. split.
+        * destruct (pend st); [assumption|]. cbn. now rewrite Hw, orb_true_r.
+        * destruct Hg as [Hg|[_ Hg]]; [left; exact Hg | congruence].
+      + rewrite Em. repeat split; assumption.
+    - unfold ctx_dead; cbn. split; [|split; assumption]. rewrite nth_error_app1; [assumption|]. apply nth_error_Some. congruence.
+    - cbn [commit_ctx]. destruct (nth_error (ctxs st) k0) as [[g0|]|] eqn:En; cbn [fst]; try (repeat split; assumption).
+      assert (Hforget : ctx_dead k g {| disk := disk st; pend := pend st; mref := mref st; gen := gen st;
+                 ctxs := replace_nth k0 None (ctxs st); nxt := nxt st; leased := leased st; dseq := dseq st;
+                 wgens := wgens st; hist := hist st |} \/ k = k0).
+      { destruct (Nat.eq_dec k k0) as [->|Hne]; [now right|]. left. unfold ctx_dead; cbn.
+        split; [rewrite nth_error_replace_other; assumption|]. split; assumption. }
+      destruct (is_open (mref st) && Nat.eqb g0 (gen st)) eqn:E; cbn [fst].
+      + apply andb_true_iff in E. destruct E as [E1 E2]. apply Nat.eqb_eq in E2. subst g0.
+        destruct (mref st) eqn:Em; try discriminate.
+        destruct Hforget as [Hf| ->].
+        2: { rewrite Hn in En. injection En as ->. destruct Hg as [Hg|[_ Hg]]; [lia | congruence]. }
+        destruct (pend st) eqn:Ep; cbn [fst]; [exact Hf|].
+        destruct Hf as (Hf1 & _ & _). cbn in Hf1. unfold ctx_dead; cbn. rewrite Ep. split; [exact Hf1|]. split.
+        * cbn. now rewrite Hw, orb_true_r.
+        * destruct Hg as [Hg|[_ Hg]]; [left; exact Hg | congruence].
+      + destruct (existsb (Nat.eqb g0) (wgens st)) eqn:Ew; cbn [fst]; [repeat split; assumption|].
+        destruct Hforget as [Hf| ->]; [exact Hf|].
+        rewrite Hn in En. injection En as ->. congruence.
     - exfalso. now apply (Hop crash).
   Qed.
 
@@ -466,7 +490,7 @@ Definition u3 : str := [117; 51].
 Lemma refuted_ctx_discarded :
   let st := fst (id_run CtxCopyPtr 1000 [IAssert u1; INewCtx; ICommitMain; IAssert u2] (id_init 1000)) in
   ctx_dead 0 1 st /\ snd (id_step CtxCopyPtr 1000 (ICommitCtx 0) st) = RErrDiscarded.
-Proof. vm_compute. split; [split; [reflexivity | left; lia] | reflexivity]. Qed.
+Proof. vm_compute. split; [split; [reflexivity | split; [reflexivity | left; lia]] | reflexivity]. Qed.
 
 (** F13c: ids handed out through a contextual store are not committed by its commit and are lost *)
 Lemma refuted_ctx_lost :
